@@ -162,7 +162,8 @@ def interrupt_runs(res, base, case, run0, r, max_points):
         fired = [e for e in run.events if e['ev'] == 'failpoint']
         if run.timed_out and fired and action == 'interrupt':
             judge_hang(res, run, desc, opts,
-                       f'injected interrupt at point {n} of write #{k}')
+                       f'injected interrupt at point {n} of write #{k}',
+                       since=fired[0]['t'])
             shutil.rmtree(wd, ignore_errors=True)
             continue
         if not fired:
@@ -255,7 +256,7 @@ def anywhere_runs(res, base, case, r, npoints):
         res.add_set('anywhere_functions', where.rsplit(':', 1)[0])
         what = f'interrupt at statement {n} of the reduction ({where})'
         if run.timed_out:
-            judge_hang(res, run, desc, opts, what)
+            judge_hang(res, run, desc, opts, what, since=fired[0]['t'])
             continue
         witness = dict(desc)
         witness.update({'opts': opts, 'failpoint': cfg['failpoint'],
@@ -293,7 +294,17 @@ def anywhere_runs(res, base, case, r, npoints):
                           f'{what}: uncaught traceback', witness)
 
 
-def judge_hang(res, run, desc, opts, what):
+def judge_hang(res, run, desc, opts, what, since=None):
+    if since is not None and run.watchdog_fired_at is not None and \
+            run.watchdog_fired_at - since < 20:
+        # the watchdog fired shortly after the interrupt (a loaded machine,
+        # a failpoint late in the run): no verdict
+        res.count('runs_watchdog')
+        return
+    return _judge_hang(res, run, desc, opts, what)
+
+
+def _judge_hang(res, run, desc, opts, what):
     """ddSMT did not exit after an interrupt; the launcher dumped the stacks
     of all threads on the harness's request (SIGUSR1)."""
     w = dict(desc)
